@@ -453,9 +453,16 @@ func (f *wfam) call(ci ssa.CallInstruction, unknown map[string]bool) {
 		switch b.Name() {
 		case "copy":
 			f.writeEvent(f.get(args[0]), ci, "copy", nil)
-			src := f.loadFrom(f.get(args[1]))
-			for o := range f.get(args[0]) {
-				f.contAdd(o, src)
+			// elements without pointers are copied by value: nothing of the source becomes reachable from the destination
+			elemPtr := true
+			if sl, isSl := args[0].Type().Underlying().(*types.Slice); isSl {
+				elemPtr = pointerful(sl.Elem())
+			}
+			if elemPtr {
+				src := f.loadFrom(f.get(args[1]))
+				for o := range f.get(args[0]) {
+					f.contAdd(o, src)
+				}
 			}
 		case "append":
 			f.writeEvent(f.get(args[0]), ci, "append", nil)
